@@ -60,15 +60,15 @@ theorem rOptAnns_nil (l : Layout) : (rOptAnns [] l).1 = [] ∧ (rOptAnns [] l).2
 
 /-- the tail of a definition: the annotations are read, a separator is consumed together with the
 blanks around it, and without a separator a blank `g` may be left to the enclosing loop. -/
-theorem defTail_rt {α} (k : Option Annotations → P α) {as : Annotations} (hw : Annotations.wf as = true)
+theorem defTail_rt2 {α} (k : Option Annotations → P α) {as : Annotations} (hw : Annotations.wf as = true)
     (endsOpen last : Bool) (l : Layout) {R : List Char} (hR : NB R) (hS : NoSepStart R)
     (hP : hdP (fun c => c != '(') R = true) :
-    ∃ g ann, BT g ∧ ann.getD [] = as ∧
+    ∃ g ann, BT g ∧ ann.getD [] = as ∧ g.length ≤ (rDefTail as endsOpen last (rOptAnns as l).2).1.length ∧
       (andThen (opt blank) fun _ => andThen (opt Annotations.parse) fun anns => andThen (opt listSeparator) fun _ => k anns)
         ((rOptAnns as l).1 ++ ((rDefTail as endsOpen last (rOptAnns as l).2).1 ++ R)) = k ann (g ++ R) := by
   by_cases has : as = []
   · subst has
-    refine ⟨[], none, BT.nil, rfl, ?_⟩
+    refine ⟨[], none, BT.nil, rfl, Nat.zero_le _, ?_⟩
     simp only [rOptAnns, rDefTail, List.isEmpty_nil, if_true, rLit_fst, rLit_snd, List.nil_append]
     simp only [rTail, rWith_fst]
     rcases sepChar_cases (l.pop.1.sep) with h | h | h
@@ -91,20 +91,30 @@ theorem defTail_rt {α} (k : Option Annotations → P α) {as : Annotations} (hw
     simp only [rOptAnns, rDefTail, he, Bool.false_eq_true, if_false, rSeq_fst, rSeq_snd, List.append_assoc]
     simp only [rTailAdj, rWith_fst]
     rcases sepChar_cases ((rAnns as (rB0 l).2).2.pop.1.sep) with h | h | h
-    · refine ⟨(rGap (false && !last) (rAnns as (rB0 l).2).2.pop.2).1, some as, rGap_BT (false && !last) _, rfl, ?_⟩
+    · refine ⟨(rGap (false && !last) (rAnns as (rB0 l).2).2.pop.2).1, some as, rGap_BT (false && !last) _, rfl, ?_, ?_⟩
+      · simp only [h, if_true]; exact Nat.le_refl _
       simp only [h, if_true]
       rw [andThen_optBlank (rB0_BT _) (hnb _ _), andThen_of_ok (opt_of_ok (annotations_rt hw has _ _))]
       have : NoSepStart ((rGap (false && !last) (rAnns as (rB0 l).2).2.pop.2).1 ++ R) :=
         (rGap_BT _ _).hdP_append (by intro c hc; rcases blankStart_cases hc with h | h | h | h | h | h <;> subst h <;> decide) hS
       rw [andThen_of_ok (listSeparator_none this)]
-    · refine ⟨[], some as, BT.nil, rfl, ?_⟩
+    · refine ⟨[], some as, BT.nil, rfl, Nat.zero_le _, ?_⟩
       simp only [h, List.cons_ne_nil, if_false, rSeq_fst, rLit_fst, List.append_assoc, List.cons_append, List.nil_append]
       rw [andThen_optBlank (rB0_BT _) (hnb _ _), andThen_of_ok (opt_of_ok (annotations_rt hw has _ _)),
         andThen_of_ok (listSeparator_some (Or.inl rfl) (rB0_BT _) hR)]
-    · refine ⟨[], some as, BT.nil, rfl, ?_⟩
+    · refine ⟨[], some as, BT.nil, rfl, Nat.zero_le _, ?_⟩
       simp only [h, List.cons_ne_nil, if_false, rSeq_fst, rLit_fst, List.append_assoc, List.cons_append, List.nil_append]
       rw [andThen_optBlank (rB0_BT _) (hnb _ _), andThen_of_ok (opt_of_ok (annotations_rt hw has _ _)),
         andThen_of_ok (listSeparator_some (Or.inr rfl) (rB0_BT _) hR)]
+
+theorem defTail_rt {α} (k : Option Annotations → P α) {as : Annotations} (hw : Annotations.wf as = true)
+    (endsOpen last : Bool) (l : Layout) {R : List Char} (hR : NB R) (hS : NoSepStart R)
+    (hP : hdP (fun c => c != '(') R = true) :
+    ∃ g ann, BT g ∧ ann.getD [] = as ∧
+      (andThen (opt blank) fun _ => andThen (opt Annotations.parse) fun anns => andThen (opt listSeparator) fun _ => k anns)
+        ((rOptAnns as l).1 ++ ((rDefTail as endsOpen last (rOptAnns as l).2).1 ++ R)) = k ann (g ++ R) := by
+  obtain ⟨g, ann, h1, h2, _, h3⟩ := defTail_rt2 k hw endsOpen last l hR hS hP
+  exact ⟨g, ann, h1, h2, h3⟩
 
 /-- …and what the token in front of that tail sees -/
 theorem defTail_sep {as : Annotations} (endsOpen last : Bool) (l : Layout) {R : List Char}
